@@ -670,9 +670,11 @@ func init() {
 		}
 		// a listener lookup (name-table-free configuration); the first response carries only another listener
 		scen = append(scen, concScenario{rt: "lds", names: []string{"lx"}, updates: [][][2]string{{{"other", "o#1"}}, {{"lx", "lx#2"}}}, cancels: []int{0}})
-		limits := []int{40, 90, 60, 40, 40}
+		// two lookups of different names; the first response answers only one of them, the second both
+		scen = append(scen, concScenario{names: []string{"c1", "c2"}, updates: [][][2]string{{{"c1", "c1#1"}}, {{"c1", "c1#2"}, {"c2", "c2#2"}}}, cancels: []int{1}})
+		limits := []int{40, 90, 60, 40, 40, 60}
 		if c.thorough() {
-			limits = []int{100000, 100000, 100000, 100000, 100000}
+			limits = []int{100000, 100000, 100000, 100000, 100000, 100000}
 			scen = append(scen,
 				concScenario{names: []string{"c1", "c1", "c1"}, updates: [][][2]string{{{"c1", "c1#1"}}}, cancels: []int{0, 1}},
 				concScenario{names: []string{"c1", "c1"}, updates: [][][2]string{{{"c1", "c1#1"}}, {{"c1", "c1#2"}}}, cancels: []int{0}, evicts: []string{"c1"}})
@@ -698,8 +700,10 @@ func init() {
 			if c.noEnum {
 				break
 			}
+			te := time.Now()
 			n := enumerate(c, sc, limits[i])
 			c.count(fmt.Sprintf("scenario%d.schedules", i), n)
+			c.count(fmt.Sprintf("scenario%d.ms", i), int(time.Since(te).Milliseconds()))
 		}
 	}
 	runAll := func(c *ctx) {
@@ -710,10 +714,21 @@ func init() {
 	props["C05"] = func(c *ctx) { runAll(c); deadlineCases(c) }
 	props["C06"] = runAll
 	props["C07"] = func(c *ctx) {
+		t0 := time.Now()
 		for _, rt := range []string{"cds", "eds", "rds", "lds"} {
 			handlerOrder(c, rt, "h-"+rt)
 		}
+		c.count("ms.handlerOrder", int(time.Since(t0).Milliseconds()))
+		t0 = time.Now()
+		for _, rt := range []string{"cds", "eds", "rds", "lds"} {
+			registrationRace(c, rt, "g-"+rt)
+		}
+		c.count("ms.registrationRace", int(time.Since(t0).Milliseconds()))
+		t0 = time.Now()
 		runAll(c)
+		c.count("ms.schedules", int(time.Since(t0).Milliseconds()))
+		t0 = time.Now()
 		runSys(c)
+		c.count("ms.sections", int(time.Since(t0).Milliseconds()))
 	}
 }
